@@ -712,6 +712,12 @@ func (fx *Fx) spawnTarget(st *State, call *ast.CallExpr) (string, string, string
 	}
 	switch f := unparen(call.Fun).(type) {
 	case *ast.FuncLit:
+		if len(args) == 0 && fx.recv != nil {
+			// the goroutine of a method's literal works on the method's receiver
+			if t, ok := st.vars[fx.recv]; ok && !fx.c.boxedVars[fx.recv] {
+				a0 = fx.c.box(Val{T: t, S: fx.c.sortOf(fx.recv.Type()), GT: fx.recv.Type()})
+			}
+		}
 		return fmt.Sprint(fx.c.codeId(fx.w.ByLit[f].Key)), a0, a1
 	default:
 		if fn := fx.calleeFunc(call); fn != nil {
